@@ -881,6 +881,9 @@ def run(ctx):
     r8_no_shared_mutable_state(ctx)
     r9_b2_bucket_record(ctx)
     r12_small_invariants(ctx)
+    from .shared import adapter_delete_discipline
+
+    adapter_delete_discipline(ctx, 'C13.R4')
     r10_download_stream_discipline(ctx)
     r11_wrappers_forward_arguments(ctx)
     r7_exists_answer(ctx)
